@@ -107,6 +107,11 @@ def run(chk):
         "store_recipe": lambda eko: eko.recipes.__setitem__(Evolution(1.0, 2.0, 4), None),
         "store_matching_recipe": lambda eko: eko.recipes_matching.__setitem__(Matching(2.0, 4, False), None),
         "load_recipes": lambda eko: eko.load_recipes([Evolution(1.0, 2.0, 4), Matching(2.0, 4, False)]),
+        # recipes the object already knows (registered before it was closed, or read / synced on a read-only one): storing them again is a store attempt too
+        "store_known_recipe": lambda eko: (eko.recipes.cache.__setitem__(Evolution(1.0, 2.0, 4), None), eko.recipes.__setitem__(Evolution(1.0, 2.0, 4), None)),
+        "store_known_matching_recipe": lambda eko: (eko.recipes_matching.cache.__setitem__(Matching(2.0, 4, False), None), eko.recipes_matching.__setitem__(Matching(2.0, 4, False), None)),
+        "load_known_recipes": lambda eko: (eko.recipes.cache.__setitem__(Evolution(1.0, 2.0, 4), None), eko.recipes_matching.cache.__setitem__(Matching(2.0, 4, False), None),
+                                           eko.load_recipes([Evolution(1.0, 2.0, 4), Matching(2.0, 4, False)])),
         "update_metadata": lambda eko: eko.update(),
         "set_xgrid": lambda eko: setattr(eko, "xgrid", "other"),
         "dump_to_default_archive": lambda eko: eko.dump(),
